@@ -110,6 +110,7 @@ def matchPre (m : MNode Val) : List Json := [.str m.pathStr, encName m.dataName]
 def decDflt (st : MState) (j : Json) : E (Heap × Option Val) := do
   match j with
   | .arr #[.str "none"] => return (st.heap, none)
+  | .arr #[.str "fn"] => return (st.heap, some (.atom (.str "<fn>")))   -- a callable default: returned as it is
   | .arr #[.str "val", vs] => do
     let (h, v) ← decValSpec st vs
     return (h, some v)
@@ -277,6 +278,21 @@ def runOp (st : MState) (op : Json) : E (MState × Json) := do
       match setMatch (stepsOfJson p) (.nested sm) cascade h v with
       | (h', .ok m) => return finish { st with heap := h' } "match" (matchPre m) (some m.data)
       | (h', .error e) => return finishErr { st with heap := h' } (errJ e)
+  | [.str "mpop", sp, k, p, .str kind, .bool flag] => do
+    let k ← getNatJ k
+    let (ms, _) := drain (wcx st.heap) (stepsOfJson sp st.heap).toArray src (k+1) freshIter
+    match ms[k]? with
+    | none => return finish st "nosrc" [] none
+    | some sm =>
+      if kind == "match" then
+        match popMatch (stepsOfJson p) (.nested sm) flag st.heap with
+        | (h', .ok (some m)) => return finish { st with heap := h' } "match" (matchPre m) (some m.data)
+        | (h', .ok none) => return finish { st with heap := h' } "none" [] none
+        | (h', .error e) => return finishErr { st with heap := h' } (errJ e)
+      else
+        match pop (stepsOfJson p) (.nested sm) (if flag then none else some (.atom (.str "dflt"))) st.heap with
+        | (h', .ok v) => return finish { st with heap := h' } "ok" [] (some v)
+        | (h', .error e) => return finishErr { st with heap := h' } (errJ e)
   | [.str "pop", p, d] => do
     let (h, dv) ← decDflt st d
     match pop (stepsOfJson p) src dv h with
